@@ -43,7 +43,7 @@ macro_rules! c15 {
             };
             let c = col(ct, unsigned);
             let mut b = Buf::<16>::new();
-            let r = v.to_mysql_bin(&mut b, &c);
+            let r = noerr(v.to_mysql_bin(&mut b, &c));
             if let Some((lo, hi, w)) = int_range(ct, unsigned) {
                 vk_cover!(r.is_ok() && w == 8, "cover: accepted into LONGLONG");
                 if r.is_ok() {
@@ -98,7 +98,7 @@ macro_rules! c15_generic {
             let c = col(ct, unsigned);
             let mut b = Buf::<16>::new();
             let v = crate::myc::value::Value::$variant(n);
-            let r = v.to_mysql_bin(&mut b, &c);
+            let r = noerr(v.to_mysql_bin(&mut b, &c));
             if let Some((_lo, _hi, w)) = int_range(ct, unsigned) {
                 vk_cover!(r.is_ok(), "cover: generic value accepted");
                 if r.is_ok() {
